@@ -263,6 +263,10 @@ fn pipeline_family(mut chk: Check) -> ! {
         replay_pipeline(&mut chk, &p);
         chk.finish();
     }
+    // recorded reproductions of repaired defects first
+    for p in chk.committed_replays() {
+        replay_pipeline(&mut chk, &p);
+    }
     let seed = chk.settings.sub_seed("pipeline");
     let with_failures = prop == "C06" || prop == "C03" || prop == "C01";
     // draw all specs up front (pure function of the seed)
